@@ -765,6 +765,32 @@ Inductive index :=
 | IInt (k : nat) | ITup (k : nat) | IList (l : list nat) | IMask (m : bits)
 | ISlice (start stop step : nat) | IOpen.
 
+(* source of copy_like: another object of the store, or a selection of the target's own rows a[[sel]]
+   (a SparseArray that shares the row objects with the target) *)
+Inductive csrc := CObj (j : nat) | CView (sel : list nat).
+(* SparseArray.from_flat_array / to_flat_array: row-major chunks of the vector size *)
+Fixpoint chunks (n k : nat) (l : list Q) : list (list Q) :=
+  match k with O => [] | S k' => firstn n l :: chunks n k' (skipn n l) end.
+(* SparseVector.copy_like(other): `if dct is other.dct: return` ; dct.clear() ; dct.update(other.dct).
+   No read_only test and no comparison of sizes. *)
+Definition copy_like_vec (c d : cells) : res cells := set_open c (SVObj d).
+(* SparseArray.copy_like(other): for i, j in zip(rows, other.rows): i.copy_like(j) *)
+Fixpoint copy_like_rows (rows others : list cells) : res (list cells) :=
+  match rows, others with
+  | r :: rows', o :: others' => do r' <- copy_like_vec r o; do t <- copy_like_rows rows' others'; Ok (r' :: t)
+  | _, _ => Ok rows
+  end.
+(* other = self[[sel]]: row k of the view IS row sel[k] of the target; rows are copied one after the other,
+   a row copied from itself is left alone *)
+Fixpoint copy_like_view (rows : list cells) (k : nat) (sel : list nat) : res (list cells) :=
+  match sel with
+  | [] => Ok rows
+  | j :: sel' =>
+      if Nat.leb (length rows) k then Ok rows                   (* zip stops at the shorter one *)
+      else if Nat.eqb j k then copy_like_view rows (S k) sel'
+      else do r' <- copy_like_vec (nth k rows []) (nth j rows []); copy_like_view (upd rows k r') (S k) sel'
+  end.
+
 Inductive op :=
 | OBin (o : bop) (i : nat) (a : arg)        (* store[i] o a : a new object or a value *)
 | OIBin (o : bop) (i : nat) (a : arg)       (* store[i] o= a *)
@@ -773,7 +799,10 @@ Inductive op :=
 | OClear (i : nat) | OSetRO (i : nat) | OToArray (i : nat)
 | OGet (i : nat) (ix : index)
 | OSet (i : nat) (ix : index) (v : arg)
-| ORed (r : red) (i : nat) (axis : option nat) (keep : bool).
+| ORed (r : red) (i : nat) (axis : option nat) (keep : bool)
+| OCopyLike (i : nat) (src : csrc)            (* store[i].copy_like(source) *)
+| OToFlat (i : nat) (buf : option (list Q))   (* store[i].to_flat_array(buffer) : the buffer content must not matter *)
+| OFromFlat (i : nat) (l : list Q).           (* store[i].from_flat_array(ndarray) *)
 
 Inductive outcome :=
 | RErr (e : err)
@@ -1272,6 +1301,50 @@ Definition step_res (lg : bool) (s : store) (o : op) : res (store * outcome) :=
                 else if is_open ix && vd2
                 then (if lg then Ok (set_obj s i (OL (falses (length b))), RErr EIndex) else Err EIndex)
                 else do b' <- vecB_set b ix p; Ok (set_obj s i (OL b'), RUnit)
+      | _ => unsupported
+      end
+  | OCopyLike i src =>
+      do x <- getobj s i;
+      match x, src with
+      | OV c ro, CObj j =>
+          if Nat.eqb j i then Ok (s, RUnit)
+          else do y <- getobj s j;
+               match y with
+               | OV d _ => do c' <- copy_like_vec c d; Ok (set_obj s i (OV c' ro), RUnit)
+               | OL b => do c' <- copy_like_vec c (cells_of_bits b); Ok (set_obj s i (OV c' ro), RUnit)   (* other.dct of a logical vector *)
+               | _ => Err EType                                                                             (* no attribute dct *)
+               end
+      | OA rows ro, CObj j =>
+          if Nat.eqb j i then Ok (s, RUnit)
+          else do y <- getobj s j;
+               match y with
+               | OA rows2 _ => do r <- copy_like_rows rows rows2; Ok (set_obj s i (OA r ro), RUnit)
+               | OB rows2 => do r <- copy_like_rows rows (map cells_of_bits rows2); Ok (set_obj s i (OA r ro), RUnit)
+               | _ => Err EType                                                                             (* no attribute rows *)
+               end
+      | OA rows ro, CView sel =>
+          do _ <- nth_rows rows sel;                                (* self[[sel]]: IndexError before anything is copied *)
+          do r <- copy_like_view rows 0 sel; Ok (set_obj s i (OA r ro), RUnit)
+      | _, _ => unsupported
+      end
+  | OToFlat i buf =>
+      do x <- getobj s i;
+      let okbuf (n : nat) := match buf with None => true | Some b => Nat.eqb (length b) n end in
+      match x with
+      | OV c _ => if okbuf (length c) then Ok (s, RDense (dense c)) else unsupported
+      | OL b => if okbuf (length b) then Ok (s, RDenseB b) else unsupported
+      | OA rows _ => if okbuf (length rows * vsize rows)%nat then Ok (s, RDense (concat (map dense rows))) else unsupported
+      | OB rows => if okbuf (length rows * vsize rows)%nat then Ok (s, RDenseB (concat rows)) else unsupported
+      end
+  | OFromFlat i l =>
+      do x <- getobj s i;
+      match x with
+      | OV c ro => if ro then Err EValue                                       (* self[:] = arr *)
+                   else do c' <- vecF_set c IOpen (reduce1 l false); Ok (set_obj s i (OV c' ro), RUnit)
+      | OA rows ro =>                                                          (* dicts cleared and refilled: no read_only test *)
+          if Nat.eqb (length l) (length rows * vsize rows)%nat
+          then Ok (set_obj s i (OA (map of_dense (chunks (vsize rows) (length rows) l)) ro), RUnit)
+          else unsupported
       | _ => unsupported
       end
   | ORed r i axis keep =>
